@@ -196,7 +196,7 @@ def reify_in_tree(draw, j, table, prob=(1, 2), tail=False):
 
 # ---- arbitrary (not necessarily well-formed) trees -----------------------------------------------------------
 
-WILD_ROLES = [':ARG0', ':ARG1', ':r', ':', ':r-of', ':ARG0-of', ':ARG0-of-of', ':-of', ':mod', ':domain-of', ':op1',
+WILD_ROLES = [':instance', ':r\xa0', ':ARG0\u3000', ':ARG0', ':ARG1', ':r', ':', ':r-of', ':ARG0-of', ':ARG0-of-of', ':-of', ':mod', ':domain-of', ':op1',
               ':consist-of', ':consist-of-of', ':a.b', ':\u00e9', ':x,y', ':^', ':R#', ':1', ':TOP']
 
 
